@@ -66,6 +66,18 @@ class ValRef:
     def set(self, v): self.v = v
 
 
+class _ItemRef:
+    def __init__(self, v, i): self.v = v; self.i = i
+    def get(self): return self.v.items[self.i]
+    def set(self, x): self.v.items[self.i] = x
+
+
+class _ByteRef:
+    def __init__(self, bv, idx): self.bv = bv; self.idx = idx
+    def get(self): return self.bv.at(self.idx)
+    def set(self, v): self.bv.arr = z3.Store(self.bv.arr, self.bv.off + self.idx, v)
+
+
 def box(v):
     """Box<T> as MIR sees it: Box { 0: Unique { 0: NonNull(ptr) }, 1: allocator }"""
     return Agg("struct", "Box", [Agg("struct", "Unique", [ValRef(v)]), None])
@@ -342,6 +354,24 @@ class Interp:
             return FieldRef(self.place_ref(frame, p[1]), p[2])
         if k == "downcast":
             return self.place_ref(frame, p[1])
+        if k == "index":
+            base = self.place_ref(frame, p[1]).get()
+            while hasattr(base, "get"):
+                base = base.get()
+            iv = frame[p[2]]
+            while hasattr(iv, "get"):
+                iv = iv.get()
+            iv = z3.simplify(iv) if z3.is_bv(iv) else iv
+            if hasattr(base, "items") and z3.is_bv_value(iv):
+                i = iv.as_long()
+                if i >= len(base.items):
+                    raise Panic("index out of bounds")
+                return _ItemRef(base, i)
+            if hasattr(base, "at") and z3.is_bv(iv):           # byte vector: symbolic index
+                if not self.branch(z3.ULT(iv, base.len)):
+                    raise Panic("index out of bounds")
+                return _ByteRef(base, iv)
+            raise Unsupported(f"index place on {base!r}")
         raise Unsupported(f"place kind {k}")
 
     def read(self, frame, p):
@@ -369,6 +399,13 @@ class Interp:
                 return z3.Not(a) if z3.is_bool(a) else ~a
             if rv[1] == "Neg":
                 return -a
+            if rv[1] == "PtrMetadata":
+                # length of a slice / vector behind the pointer
+                x = a
+                while hasattr(x, "get"):
+                    x = x.get()
+                if hasattr(x, "items"): return z3.BitVecVal(len(x.items), 64)
+                if hasattr(x, "len") and not callable(x.len): return x.len
             raise Unsupported("unop " + rv[1])
         if k == "cast":
             a = self.operand(frame, rv[1])
